@@ -16,6 +16,12 @@ Definition in_domain (x : octx) (st : bytes) : Prop :=
   ~ In 0 st /\ Forall (line_ok CBUF_MAXSIZE) (fst (split_lines st)) /\ line_ok (CBUF_MAXSIZE - 1) (snd (split_lines st)) /\
   (read_rc x = true -> find_sub RC_MAGIC st = None).
 
+(* the same with an unterminated rest of up to exactly 128 KiB (the code copes with that too:
+   a buffer that is full at its maximum size then only meets end of file) *)
+Definition in_domain_wide (x : octx) (st : bytes) : Prop :=
+  ~ In 0 st /\ Forall (line_ok CBUF_MAXSIZE) (fst (split_lines st)) /\ line_ok CBUF_MAXSIZE (snd (split_lines st)) /\
+  (read_rc x = true -> find_sub RC_MAGIC st = None).
+
 (* the calls are texts, some of them carrying the host's label *)
 Definition with_labels (x : octx) (texts : list (bool * bytes)) : list bytes :=
   map (fun bt : bool * bytes => if fst bt then emit x (snd bt) else snd bt) texts.
